@@ -468,7 +468,7 @@ pub fn replay_flow(case: &Value, rep: &mut Report) {
                         }
                     }
                 }
-                if mode == "loop" {
+                if mode == "loop" && case["steps"].as_array().map(|a| a.len()) == Some(1) {
                     // Overwrite accumulation without input skips == the real unrolled network with the same weights
                     let step = &case["steps"][0];
                     if !bool_of(step, "inskips") {
@@ -540,13 +540,17 @@ pub fn replay_tying(case: &Value, rep: &mut Report, rng: &mut Rng) {
         })
         .collect();
     let width = if spatial { 16 } else { block[0][1].as_u64().unwrap() as usize };
-    let optimizer = match opt {
+    // "<kind>-decay": the same optimizer with weight decay (an update that rewrites its gradient argument)
+    let mut optimizer = match opt.trim_end_matches("-decay") {
         "sgd" => json!({"kind": "sgd", "lr": 0.0625}),
         "sgdm" => json!({"kind": "sgdm", "lr": 0.0625, "momentum": 0.5}),
         "adam" => json!({"kind": "adam", "lr": 0.01}),
         "adamw" => json!({"kind": "adamw", "lr": 0.01, "decay": 0.01}),
         _ => json!({"kind": "rmsprop", "lr": 0.01, "alpha": 0.9, "momentum": 0.5, "centered": true}),
     };
+    if opt.ends_with("-decay") {
+        optimizer["decay"] = json!(0.0625);
+    }
     let arch = json!({"input": if spatial { json!([1, 4, 4]) } else { json!([width]) }, "out": 2, "ints": false,
         "layers": [{"kind": "feedback", "layers": inner, "loops": loops, "acc": acc}, {"kind": "dense", "out": 2, "act": "linear", "bias": false}],
         "objective": {"kind": "mse"}, "optimizer": optimizer});
